@@ -154,6 +154,12 @@ def expect (kind : Nat) (what : String) (ts : Toks) : Except String (Str × Toks
   | (k, v) :: rest => if k = kind then .ok (v, rest) else .error s!"expected {what}"
   | [] => .error s!"expected {what}, got end"
 
+/-- after an array item: skip newlines, swallow one comma if present (the other token is pushed back). -/
+def skipComma (ts : Toks) : Toks :=
+  match skipNl ts with
+  | (k, v) :: rest => if k = kCOMMA then rest else (k, v) :: rest
+  | [] => []
+
 /-- `UUID(text)` accepts it? (32 hex digits once dashes are removed) -/
 def uuidOK (s : Str) : Bool :=
   let h := s.filter (· != '-')
@@ -248,23 +254,19 @@ def parseArray (T : Tables) (fuel : Nat) (fold : Str → Str) (attrName : Str) (
       else if k = kBRACK_CLOSE then .ok (vals.reverse, ts)
       else if k ≠ kSTRING then .error "unexpected token in array"
       else
-      let comma (ts : Toks) : Toks :=
-        match skipNl ts with
-        | (k, v) :: rest => if k = kCOMMA then rest else (k, v) :: rest
-        | [] => []
       if vt = .element then
         if v = ['e', 'l', 'e', 'm', 'e', 'n', 't'] then
           match expect kSTRING "uuid" ts with
           | .error e => .error e
           | .ok (u, ts) =>
-            if u.isEmpty then parseArray T fuel fold attrName vt (.null :: vals) (comma ts)
+            if u.isEmpty then parseArray T fuel fold attrName vt (.null :: vals) (skipComma ts)
             else if !uuidOK u then .error "invalid uuid"
-            else parseArray T fuel fold attrName vt (.uuid u :: vals) (comma ts)
+            else parseArray T fuel fold attrName vt (.uuid u :: vals) (skipComma ts)
         else
           match parseElement T fold fuel attrName v ts with
           | .error e => .error e
-          | .ok (e, ts) => parseArray T fuel fold attrName vt (.inline e :: vals) (comma ts)
-      else parseArray T fuel fold attrName vt (.text v :: vals) (comma ts)
+          | .ok (e, ts) => parseArray T fuel fold attrName vt (.inline e :: vals) (skipComma ts)
+      else parseArray T fuel fold attrName vt (.text v :: vals) (skipComma ts)
 end
 
 /-- the top-level loop of `parse_kv2`. -/
